@@ -17,7 +17,12 @@ EXHAUSTIVE = {"quick": False, "thorough": False}
 RULE = ("cases = corpus + every timestamp sequence of length <=4 over 0..3 (thorough: <=5 over 0..4) under every "
         "(watermark strategy, late strategy) pair + N random sequences of length 1..12 over domains 4/8/16/40 "
         "(sorted, reversed, shuffled) + a Periodic family (intervals 0 / small / one hour; injected clock readings that stand "
-        "still, advance by interval-1 / interval / interval+1, jump and run backwards). Each case is run on WatermarkedStream (real code) and on the Lean model; "
+        "still, advance by interval-1 / interval / interval+1, jump and run backwards) + a DURATION family: max_delay / max_lateness given as a "
+        "std Duration that is not a whole number of milliseconds below 2^64 - Duration::MAX, from_secs(u64::MAX), whole seconds whose "
+        "milliseconds pass 2^64 (2^64 ms + 384, 2^55 s), the values just below / at / above 2^64 ms, 2^54 s and 2^63 s, sub-millisecond parts "
+        "(999_999 ns, 1_000_001 ns, 1 s + 999_999_999 ns) - 22 durations x 7 fixed out-of-order sequences (small and huge timestamps) x "
+        "{as max_delay with every late strategy, as max_lateness behind 5 watermark strategies, as both} + random ones; the model strategy "
+        "carries the effective delay C13.durMillisU64 = `d.as_millis() as u64` (floor of total ns / 10^6, low 64 bits). Each case is run on WatermarkedStream (real code) and on the Lean model; "
         "observations after every add_event are diffed and the Spec predicate C13.runOk is evaluated on the "
         "implementation's observations. A case is non-trivial when at least one event was late; distinct = distinct case text.")
 TRUSTED = [
@@ -29,6 +34,8 @@ TRUSTED = [
 ]
 ASSUMPTIONS = [
     "timestamps are u64 milliseconds modelled as Nat; saturating_sub = Nat subtraction",
+    "a configured Duration (secs: u64, nanos < 10^9) enters the model as the effective delay C13.durMillisU64 secs nanos = `d.as_millis() as u64` "
+    "(computed by the driver from the case text; the theorems are parametric in the delay)",
     "event identity = caller-assigned id (StreamEvent.id), unique per case",
 ]
 
